@@ -333,7 +333,8 @@ def c07():
     import suite_c07
     return {
         "props_file": "Props/C07.v",
-        "theorems": ["C07_insert_refines", "C07_fit_refines", "C07_stored_is_recomputed", "C07_nonvacuous_instance"],
+        "theorems": ["C07_insert_refines", "C07_fit_refines", "C07_stored_is_recomputed", "C07_nonvacuous_instance",
+                     "C07_fit_groups_refines", "C07_fit_labels_refines", "C07_recluster_iter_refines", "C07_do_recluster_refines", "C07_refine_refines"],
         "model_files": ["Model/Obs.v", "Model/ObsBits.v", "Model/Spec.v"],
         "suites": [suite_hist.suite_tree_walk, suite_hist.suite_exhaustive,
                    suite_c07.suite_dissim_choice, suite_c07.suite_legacy, suite_c07.suite_reference_tall],
